@@ -47,17 +47,21 @@ def colMean [Add K] [Zero K] [Div K] [NatCast K] {n m : Nat} (A : Mat n m K) (j 
 def grandMean [Add K] [Zero K] [Div K] [NatCast K] [Mul K] {n m : Nat} (A : Mat n m K) : K :=
   (sumFin n fun i => sumFin m fun j => A i j) / ((n : K) * (m : K))
 
+/-- `A i j + g - cm j - cm i` for given column means `cm` and grand mean `g` (the drivers pass tabulated means) -/
+def centerWith [Add K] [Sub K] {n : Nat} (cm : Vec n K) (g : K) (A : Mat n n K) : Mat n n K :=
+  fun i j => A i j + g - cm j - cm i
+
 /-- `centerMatrix`: `+= grand_mean; rowwise -= col_meansᵀ; colwise -= col_means`
     (NB: the *column* means are subtracted on both sides, also for a non-symmetric argument) -/
 def centerMatrix [Add K] [Sub K] [Zero K] [Div K] [NatCast K] [Mul K] {n : Nat} (A : Mat n n K) : Mat n n K :=
-  let cm := colMean A
-  let g := grandMean A
-  fun i j => A i j + g - cm j - cm i
+  centerWith (colMean A) (grandMean A) A
 
-/-- MDS: the matrix handed to the eigensolver -/
+/-- the constant `-0.5` -/
+def negHalf [Neg K] [Div K] [NatCast K] : K := -((1 : Nat) : K) / ((2 : Nat) : K)
+
+/-- MDS: the matrix handed to the eigensolver (`centerMatrix`, then `*= -0.5`) -/
 def mdsPre [Add K] [Sub K] [Zero K] [Div K] [NatCast K] [Mul K] [Neg K] {n : Nat} (S : Mat n n K) : Mat n n K :=
-  let C := Mat.materialize (centerMatrix (Mat.materialize S))
-  fun i j => C i j * (-((1 : Nat) : K) / ((2 : Nat) : K))
+  fun i j => centerMatrix S i j * negHalf
 
 /-! ### linear kernel (Gram) matrix and Kernel PCA -/
 
@@ -76,7 +80,7 @@ def kernelMatrix {n : Nat} (κ : Fin n → Fin n → K) : Mat n n K :=
   fun i j => if i.1 ≤ j.1 then κ i j else κ j i
 
 def kpcaPre [Add K] [Sub K] [Zero K] [Div K] [NatCast K] [Mul K] {n : Nat} (κ : Fin n → Fin n → K) : Mat n n K :=
-  centerMatrix (Mat.materialize (kernelMatrix κ))
+  centerMatrix (kernelMatrix κ)
 
 /-- squared Euclidean distance between rows (the square of what `eigen_distance_callback` returns) -/
 def sqEuclid [Add K] [Sub K] [Zero K] [Mul K] {n D : Nat} (X : Mat n D K) (i j : Fin n) : K :=
